@@ -1858,7 +1858,8 @@ func (ctx Ctx) stmtInBlock(s ast.Stmt, usage ExprValUsage) (coq.Binding, bool) {
 	case *ast.IfStmt:
 		return ctx.ifStmt(s, []ast.Stmt{}, usage), true
 	case *ast.BlockStmt:
-		return coq.NewAnon(ctx.blockStmt(s, usage)), true
+		// parenthesized so that the bindings of the block end with it
+		return coq.NewAnon(coq.ParenExpr{X: ctx.blockStmt(s, usage)}), true
 	}
 	// For everything else, we generate the statement and possibly tell the caller
 	// that this is not yet finalized.
